@@ -15,9 +15,15 @@ func mgStages(props string, qc, qn, tc, tn int) func(string) []Stage {
 func init() {
 	plans["C07"] = Plan{Prop: "C07", Level: "exploration",
 		Rule: "seeded histories over {batch, txn, create, delete, rename, re-create, Cleandeleted(), restart} on names da..dd sharing 3-4 entity ids; after every op: catalogue, deleted names unreachable, every live dataset compared with the incarnation model (listing, feed, lookups, relations), scoped snapshot of every unrelated dataset identical before/after each management op (hub-vs-hub), raw key scan after GC, reads through a contextual store created before the deletions. Non-trivial = the history deletes or renames a dataset",
-		Assumptions: append([]string{"crash points inside create/rename/delete are exercised by the C04 crash protocol, not here",
+		Assumptions: append([]string{"crash points inside create/rename/delete: second stage (crashdrive family=mgmt): writer killed at (hook point, hit) pairs of dsm.create|rename|delete.* and ds.store.*, store reopened and compared with the model before / after the in-flight operation",
 			"hub-vs-hub snapshots use incoming queries only with a concrete predicate and single-dataset scope (outside the open C03 findings)"}, assumeStore...),
-		Stages: mgStages("C07+C01+C02+C03", 16, 12, 16, 250)}
+		Stages: func(tier string) []Stage {
+			st := mgStages("C07+C01+C02+C03", 16, 12, 16, 250)(tier)
+			if tier == "thorough" {
+				return append(st, crashStage("crashmg", "mgmt", "C07", 16, 6, 0, 3))
+			}
+			return append(st, crashStage("crashmg", "mgmt", "C07", 8, 1, 12, 1))
+		}}
 	plans["C19"] = Plan{Prop: "C19", Level: "exploration",
 		Rule:        "same management histories; at every op boundary (quiescent): each live dataset has exactly one live meta-entity in core.Dataset with its name, deleted / renamed-away names have none, and the items counter equals both the model's and the feed's distinct-id count. Non-trivial = an id was stored twice and a management op happened",
 		Assumptions: assumeStore,
